@@ -90,8 +90,13 @@ class OpaqueStar:
         return f"<*{self.name}>"
 
 
+_FRAME_SEQ = [0]
+
+
 class Frame:
     def __init__(self, func: Closure, parent: Optional["Frame"], locals_set):
+        _FRAME_SEQ[0] += 1
+        self.seq = _FRAME_SEQ[0]  # activation order: freeze_heap remembers it ("activations that existed before the call under contract")
         self.func = func
         self.parent = parent
         self.locals: Dict[str, Any] = {}
@@ -618,6 +623,10 @@ class Interp:
             f = fr.parent
             while f is not None:
                 if name in f.locals or name in f.local_names:
+                    # a write to a variable of an ENCLOSING activation: state that every closure over it shares (frame obligations
+                    # treat the cells of activations that were finished before the call under contract as pre-existing state)
+                    ws = cur().ghost.setdefault("closure_writes", {})
+                    ws.setdefault((id(f), name), (f, name, f.locals.get(name, MISSING)))
                     f.locals[name] = value
                     return
                 f = f.parent
